@@ -11,6 +11,7 @@ def check(A):
         S.upgrade_handshake(A, fl, 'C06')
         S.upgrade_exit_state(A, fl, 'C06')
         S.direct_websocket(A, fl, 'C06')
+        S.who_may_rules(A, fl, 'C06', parts=('flags',))
         S.get_request_rules(A, fl, 'C06')
         R.upgrade_configured_rule(A, fl, 'C06')
         R.upgrade_refusal_harmless_rule(A, fl, 'C06')
